@@ -170,7 +170,7 @@ CHECKS = {
         level="other", design="4/C08",
         technique="property oracle on the real compiler over marked multi-file projects (every op-producing source node recognisable from the content of its op; positions from the harness printer) + Lean 4 proof of the SourceMapBuilder protocol for all command sequences and of the counting behind macro return addresses for all blueprints + per-input validation (recorded builder calls replayed through the Lean model, every ExplorerScriptMacro.build call re-derived by the Lean model of build, decidable disciplines of the theorems evaluated on the recorded run)",
         text="Proof (K3), kernel-checked for ALL command sequences of SourceMapBuilder: the entry under an offset is the argument of the last add_opcode / add_macro_opcode for it (entry_is_last_add); a macro entry takes return address and parameter mapping from the top of the context stack and the call position from the pending next_macro_opcode_called_in (macro_entry_uses_stack_top); a call position is consumed by exactly the next add_macro_opcode (called_in_once); no offset is in both tables when the offsets given to the two methods are disjoint (direct_and_macro_disjoint_if); a run raises iff a pop or add_macro_opcode happens outside every context, and bracketed sequences leave the stack as found (run_ok_iff_depthOk, push_pop_balanced). For ALL blueprint lists built from ops, labels, concatenation and outputs of build: expanding at counter c pushes c+n+1 (n = non-label items), hands out exactly the offsets c+1..c+n, each smaller than the return address on top of the stack at that moment, every nested return address equals the next number of the counter when its expansion ends (ret_addr_bounds, blueprint_seg, events_bounds), the builder calls of the model of build follow that machine (buildLoop_trace), and the list build returns (nested start labels carrying the substituted parameter mappings) is a blueprint again (buildItems_blueprint). Validation per explored input: which source node an op belongs to, the designated-node table (design_notes/C08.md), macro file / name / position, call position on the first op, return address bounds against the real emitted ops, files named, position marks — checked by the oracle on the real compiler's output; no forall-programs statement about the compile handlers is claimed.",
-        note=COMMON_NOTE + "The compile handlers and the ANTLR parser are not modelled. Positions come from the harness printer (cross-checked by parsing the text back with the repository's parser). Label jumps (Jump/Call ops) carry no recognisable content and are checked only for an entry at the start of some statement, header or case. Three narrow known findings remain in known_findings.jsonl (outer call site shadowed when a macro starts with a macro call, call position recorded on an op that jump elimination drops, position mark tuple layout vs docs). Five defects found by this check were repaired in /repo (1dfd06a hang on Position literals in nested same-file macros, db2d608 wrong file for transitively imported macros, a2649b8 position marks of other macros of a file, d39fded null file for relayed position marks, 4303b4a wrong parameter mapping at depth 3); their witnesses run as regression tests that must pass, a regression is a VIOLATION with the witness as failing input."),
+        note=COMMON_NOTE + "The compile handlers and the ANTLR parser are not modelled. Positions come from the harness printer (cross-checked by parsing the text back with the repository's parser). Label jumps (Jump/Call ops) carry no recognisable content: each must have an entry at the start of some statement, header or case, and a census ties them to their statements (every continue / break / break_loop / jump / call statement, loop, switch and if registers the number of entries its handler generates at its own start, counted over emitted and dropped ops); exchanging the entries of two jump ops among themselves is not observable. Three narrow known findings remain in known_findings.jsonl (outer call site shadowed when a macro starts with a macro call, call position recorded on an op that jump elimination drops, position mark tuple layout vs docs). Five defects found by this check were repaired in /repo (1dfd06a hang on Position literals in nested same-file macros, db2d608 wrong file for transitively imported macros, a2649b8 position marks of other macros of a file, d39fded null file for relayed position marks, 4303b4a wrong parameter mapping at depth 3); their witnesses run as regression tests that must pass, a regression is a VIOLATION with the witness as failing input."),
     "C11": dict(
         level="other", design="4/C11",
         technique="Lean 4 theorems about an abstract protocol machine (K3) for the id(graph)-keyed memo table of graph_utils.py under ALL histories of "
